@@ -13,7 +13,7 @@ def check(run, only=None):
     if only in (None, "B"):
         n, r = (3, 2) if run.tier == "quick" else (4, 2)
         from vlib import corpus
-        gs = list(grammars(n, r)) + corpus.classic() + corpus.rule_orders() + corpus.lookahead_chains() + corpus.nullable_lists() + corpus.random_grammars(3000 if run.tier == "quick" else 40000)
+        gs = list(grammars(n, r)) + corpus.classic() + corpus.rule_orders() + corpus.lookahead_chains() + corpus.nullable_lists() + corpus.split_siblings() + corpus.random_grammars(3000 if run.tier == "quick" else 40000)
         params = {"tier": run.tier}
         # start production = LAYOUT rule (the table of the layout sub-parser): the same grammars with S as LAYOUT
         ls = dict(params, layout_start=True)
